@@ -152,7 +152,7 @@ func (g *generator) enum(name string, syntax string, closedFirstNonZero bool) *E
 		e.Values = append(e.Values, &EnumValue{Name: prefix + vn, Number: num, Comment: "Value " + vn + "."})
 	}
 	if g.r.IntN(4) == 0 {
-		e.ReservedRanges = append(e.ReservedRanges, Range{num + 5, num + 5 + g.r.IntN(3)})
+		e.ReservedRanges = append(e.ReservedRanges, Range{Lo: num + 5, Hi: num + 5 + g.r.IntN(3)})
 		if g.r.IntN(2) == 0 {
 			e.ReservedNames = append(e.ReservedNames, prefix+"GONE")
 		}
@@ -282,13 +282,13 @@ func (g *generator) message(pkg, scope, name, syntax string, depth int) *Message
 		m.Fields = append(m.Fields, fl)
 	}
 	if g.r.IntN(4) == 0 {
-		m.ReservedRanges = append(m.ReservedRanges, Range{num + 10, num + 10 + g.r.IntN(5)})
+		m.ReservedRanges = append(m.ReservedRanges, Range{Lo: num + 10, Hi: num + 10 + g.r.IntN(5)})
 		if g.r.IntN(2) == 0 {
 			m.ReservedNames = append(m.ReservedNames, "gone_"+g.word())
 		}
 	}
 	if g.cfg.Extensions && (syntax == "proto2" || syntax == "editions") && g.r.IntN(4) == 0 {
-		m.ExtRanges = append(m.ExtRanges, Range{1000 + num, 1000 + num + 99})
+		m.ExtRanges = append(m.ExtRanges, Range{Lo: 1000 + num, Hi: 1000 + num + 99})
 	}
 	return m
 }
